@@ -14,6 +14,7 @@ import (
 	"net/http/httptest"
 	"os"
 	"path/filepath"
+	"strings"
 	"sync"
 	"time"
 
@@ -21,6 +22,7 @@ import (
 	corev1 "k8s.io/api/core/v1"
 	metav1 "k8s.io/apimachinery/pkg/apis/meta/v1"
 	"k8s.io/apimachinery/pkg/runtime"
+	"k8s.io/apimachinery/pkg/watch"
 	"k8s.io/client-go/informers"
 	"k8s.io/client-go/kubernetes/fake"
 	k8stesting "k8s.io/client-go/testing"
@@ -37,6 +39,19 @@ import (
 	utiliptables "tkestack.io/galaxy/pkg/utils/iptables"
 	iptablestesting "tkestack.io/galaxy/pkg/utils/iptables/testing"
 )
+
+func init() {
+	// client-go's fake watcher panics ("channel full") when more than DefaultChanSize (100) events are queued before the
+	// informer has consumed them — a limitation of the FAKE under a heavy concurrent load, not galaxy's behaviour.  Every
+	// watcher of our fake clientsets is consumed by a running informer; a roomy buffer keeps a slow consumer from tripping it.
+	watch.DefaultChanSize = 1 << 18
+}
+
+// FakeWatcherArtefact: is this panic (value + stack) the fake watcher's "channel full"?
+func FakeWatcherArtefact(text string) bool {
+	return strings.Contains(text, "channel full") &&
+		(strings.Contains(text, "watch.(*RaceFreeFakeWatcher)") || strings.Contains(text, "client-go/testing.(*tracker)"))
+}
 
 // Quiet sends klog output of the real code to /dev/null (it would drown the race reports / the JSON report).
 func Quiet() {
